@@ -6,13 +6,13 @@ ENTRY = {
                    "resolvers and annotations with repeated keys of seven key types), optionally followed by Update with another sequence, are folded by a small model; "
                    "the route's accessors (Pattern/Hostname/Path, ParamsLen, both trailing-slash flags, ClientIPResolver, Annotation), the middleware trace and "
                    "Context.ClientIP inside the route handler and inside the 404/405/OPTIONS handlers must agree with it. Nil handlers, nil middleware, nil routes and "
-                   "eleven kinds of annotation key (nil, slice, map, func, structs/arrays/interfaces holding those) must give ErrInvalidConfig/ErrInvalidRoute, no panic, and an unchanged router.",
+                   "routes with up to 131073 wildcards keep ParamsLen equal to their count whenever they are accepted; eleven kinds of annotation key (nil, slice, map, func, structs/arrays/interfaces holding those) must give ErrInvalidConfig/ErrInvalidRoute, no panic, and an unchanged router.",
         level_note="A nil router-wide resolver given after a real one is not judged (documentation and code differ, the property only speaks of per-route nil). NewRoute with a nil handler is not probed (not named by the property).",
         rule="cases: (global option sequence, route option sequence, pattern[, update sequence]) and invalid-value cases; non-trivial = at least two options touch the same setting, or an ill-typed/nil value; distinct by the whole case",
         assumptions=["resolvers return distinguishable addresses", "global options are immutable after New"],
-        quick=[REPLAY, R("options", "^(TestOptionSequences|TestInvalidOptions)$", checks=8000, timeout=600),
+        quick=[REPLAY, R("options", "^(TestOptionSequences|TestInvalidOptions|TestAccessorsManyWildcards)$", checks=8000, timeout=600),
                R("annotation-keys", "^TestAnnotationKeySequences$", checks=3000, timeout=600)],
-        thorough=[REPLAY, R("options", "^(TestOptionSequences|TestInvalidOptions)$", checks=100000, shards=16, timeout=3000),
+        thorough=[REPLAY, R("options", "^(TestOptionSequences|TestInvalidOptions|TestAccessorsManyWildcards)$", checks=100000, shards=16, timeout=3000),
                   R("annotation-keys", "^TestAnnotationKeySequences$", checks=50000, shards=4, timeout=3000)],
     ),
 }
